@@ -943,8 +943,64 @@ def run_ctx(req):
     return {"obs": obs[:6], "stats": stats}
 
 
+def run_exhausted_agen(req):
+    """an async generator that FINISHED while its aclose() awaitable was being thrown into (a task cancelled while it
+    awaits agen.aclose() and the generator's clean-up awaits too): CPython leaves ag_running set on it, ag_frame is None.
+    An exhausted x yields no frames."""
+    @types.coroutine
+    def trap():
+        yield "trapped"
+
+    class Cancelled(BaseException):
+        pass
+
+    async def agen_fn():
+        try:
+            yield 1
+        finally:
+            await trap()
+
+    obs = []
+    for how in ("aclose_thrown_into", "plainly_exhausted"):
+        ag = agen_fn()
+        try:
+            ag.asend(None).send(None)
+        except StopIteration:
+            pass
+        if how == "aclose_thrown_into":
+            t = ag.aclose()
+            t.send(None)                 # the clean-up is awaiting now
+            try:
+                t.throw(Cancelled())
+            except Cancelled:
+                pass
+        else:
+            t = ag.aclose()
+            t.send(None)
+            try:
+                t.send(None)
+            except StopIteration:
+                pass
+        if ag.ag_frame is not None:
+            return {"harness_error": "the async generator is not finished"}
+        here = sys._getframe()
+        for wc in (True, False):
+            try:
+                st = extract(ag, with_contexts=wc)
+            except BaseException as ex:
+                obs.append({"kind": "raised", "exc": repr(ex)})
+                continue
+            if st.frames or st.error is not None:
+                obs.append({"kind": "exhausted_async_generator_has_frames", "how": how, "ag_running": bool(ag.ag_running),
+                            "frames": [f.funcname for f in st.frames][-4:], "includes_the_callers_own_frame":
+                            any(f.pyframe is here for f in st.frames), "error": repr(st.error)})
+    return {"obs": obs[:3], "stats": {"points": 4}}
+
+
 def run_special(req):
     kind = req["ir"]["special"]
+    if kind == "exhausted_agen_with_running_flag":
+        return run_exhausted_agen(req)
     if kind != "anext_sequence_awaitable":
         raise AssertionError(kind)
     if sys.version_info < (3, 10):
